@@ -1920,8 +1920,10 @@ func (k *Kernel) handleReplayedHeader(
 		))
 	}
 
-	if proof.Round > s.Voting.Round {
+	for proof.Round > s.Voting.Round {
 		// Later round than we expected.
+		// Each jump advances the voting round by one,
+		// so repeat until the voting view is at the replayed round.
 		if err := k.jumpVotingRound(ctx, s, proof.Round); err != nil {
 			return tmelink.ReplayedHeaderInternalError{
 				Err: fmt.Errorf(
